@@ -1,6 +1,7 @@
 package statex
 
 import (
+	"time"
 	"context"
 	"errors"
 	"fmt"
@@ -55,43 +56,106 @@ func init() {
 
 // c04Op is one step of a view history.
 type c04Op struct {
-	Kind string `json:"op"` // put | del | rb
+	Kind string `json:"op"` // put | del | rb | get | commit (commit = Commit in the middle of a view that keeps being used)
 	Key  int    `json:"key,omitempty"`
 	Val  string `json:"val,omitempty"`
 	CP   int    `json:"cp,omitempty"`
+	// Fault > 0: during this op the parent state.Immutable fails its Fault-th GetValue call
+	// (c04FaultAll = every call) with a transient error that is not database.ErrNotFound.
+	Fault int `json:"fault,omitempty"`
 }
 
+const c04FaultAll = 9
+
 func (o c04Op) String() string {
+	var s string
 	switch o.Kind {
 	case "put":
-		return fmt.Sprintf("put(%c,%s)", 'a'+o.Key, o.Val)
+		s = fmt.Sprintf("put(%c,%s)", 'a'+o.Key, o.Val)
 	case "del":
-		return fmt.Sprintf("del(%c)", 'a'+o.Key)
+		s = fmt.Sprintf("del(%c)", 'a'+o.Key)
+	case "get":
+		s = fmt.Sprintf("get(%c)", 'a'+o.Key)
+	case "commit":
+		return "commit"
 	default:
 		return fmt.Sprintf("rollback(%d)", o.CP)
 	}
+	if o.Fault > 0 {
+		s += fmt.Sprintf("!%d", o.Fault)
+	}
+	return s
 }
 
 type c04Case struct {
 	Base    map[string]string `json:"base"`    // key name -> value
 	Pending map[string]string `json:"pending"` // key name -> value or "<deleted>"
-	Views   [][]c04Op         `json:"views"`   // each view runs its ops then commits
+	Views   [][]c04Op         `json:"views"`   // each view runs its ops then commits (unless discarded)
+	// Scopes[i] != nil: view i is created with these per-key permissions (state.Permissions
+	// values; missing key = None) instead of state.CompletePermissions.
+	Scopes []map[string]int `json:"scopes,omitempty"`
+	// Discard[i]: view i is dropped without a final Commit.
+	Discard []bool `json:"discard,omitempty"`
+}
+
+// c04Parent is the parent state.Immutable of every view: a plain map that can be armed to
+// fail chosen GetValue calls.
+type c04Parent struct {
+	m     map[string][]byte
+	arm   int
+	calls int
+	fired int
+}
+
+var errC04Fault = errors.New("c04: injected transient parent-state fault")
+
+func (p *c04Parent) GetValue(_ context.Context, key []byte) ([]byte, error) {
+	p.calls++
+	if p.arm == c04FaultAll || (p.arm > 0 && p.calls == p.arm) {
+		p.fired++
+		return nil, errC04Fault
+	}
+	if v, ok := p.m[string(key)]; ok {
+		return v, nil
+	}
+	return nil, database.ErrNotFound
+}
+
+func (p *c04Parent) set(n int) { p.arm, p.calls, p.fired = n, 0, 0 }
+
+// c04When is a lazily formatted position in a history (only rendered for a violation).
+type c04When func() string
+
+func (w c04When) String() string { return w() }
+
+// c04Stats reports what a case exercised (for counters / non-triviality).
+type c04Stats struct {
+	faultFailedOps int // ops that returned the injected parent error
+	faultsFired    int
+	permRefused    int // ops refused with ErrInvalidKeyOrPermission on a restricted view
+	midCommits     int // Commit followed by further use of the same view
+	postCommitOps  int // ops run on a view after one of its own commits
+	crossRollbacks int // rollbacks to a checkpoint taken before the view's latest commit
+	discarded      int
+	blockChecks    int
 }
 
 // runC04 drives the real tstate with the case and the model side by side and
 // returns a description of the first disagreement ("" = agreed).
-func runC04(c c04Case) (string, string) {
+func runC04(c c04Case) (string, string, c04Stats) {
+	var st c04Stats
 	ctx := context.Background()
 	base := kv{}
-	bs := state.ImmutableStorage{}
+	bs := &c04Parent{m: map[string][]byte{}}
 	for i, k := range c04Keys {
 		if v, ok := c.Base[string(rune('a'+i))]; ok {
 			base[k] = v
-			bs[k] = []byte(v)
+			bs.m[k] = []byte(v)
 		}
 	}
 	ts := tstate.New(4)
-	under := base.clone()
+	under := base.clone() // values visible at block level (parent overlaid with the published diff)
+	blk := map[string]string{} // model of the published diff: key -> "S<value>" | "N" (deleted)
 	if len(c.Pending) > 0 {
 		pre := ts.NewView(state.CompletePermissions, bs, 4)
 		for i, k := range c04Keys {
@@ -101,20 +165,27 @@ func runC04(c c04Case) (string, string) {
 			}
 			if v == "<deleted>" {
 				if err := pre.Remove(ctx, []byte(k)); err != nil {
-					return "setup", "setup remove: " + err.Error()
+					return "setup", "setup remove: " + err.Error(), st
 				}
 				delete(under, k)
 			} else {
 				if err := pre.Insert(ctx, []byte(k), []byte(v)); err != nil {
-					return "setup", "setup insert: " + err.Error()
+					return "setup", "setup insert: " + err.Error(), st
 				}
 				under[k] = v
+			}
+			if vs(under, k) != vs(base, k) {
+				blk[k] = vs(under, k)
 			}
 		}
 		pre.Commit()
 	}
-	check := func(view *tstate.TStateView, model kv, when string) (string, string) {
+	// check compares every key readable through the view with the model
+	check := func(view *tstate.TStateView, perms map[string]state.Permissions, model kv, when fmt.Stringer) (string, string) {
 		for _, k := range c04Keys {
+			if perms != nil && !perms[k].Has(state.Read) {
+				continue
+			}
 			got, err := view.GetValue(ctx, []byte(k))
 			want, ok := model[k]
 			if ok && (err != nil || string(got) != want) {
@@ -126,102 +197,250 @@ func runC04(c c04Case) (string, string) {
 		}
 		return "", ""
 	}
+	// checkBlock: the block-level state (ChangedKeys, PendingChanges and - with probe - the reads of a
+	// fresh view) must be exactly what the model says was published by the commits so far.
+	checkBlock := func(when fmt.Stringer, probe bool, diffKey, readKey string) (string, string) {
+		st.blockChecks++
+		cur := ts.ChangedKeys()
+		bad := len(cur) != len(blk) || ts.PendingChanges() != len(blk)
+		for k, want := range blk {
+			if v, ok := cur[k]; !ok || mstr(v) != want {
+				bad = true
+			}
+		}
+		if bad {
+			got := map[string]string{}
+			for k, v := range cur {
+				n, ok := c04Name[k]
+				if !ok {
+					n = fmt.Sprintf("%x", k)
+				}
+				got[n] = mstr(v)
+			}
+			want := map[string]string{}
+			for k, v := range blk {
+				want[c04Name[k]] = v
+			}
+			return diffKey, fmt.Sprintf("%s: block-level diff is %v (PendingChanges()=%d) but the commits so far published %v", when, got, ts.PendingChanges(), want)
+		}
+		if probe {
+			pv := ts.NewView(state.CompletePermissions, bs, 4)
+			if _, d := check(pv, nil, under, c04When(func() string { return when.String() + " (fresh view)" })); d != "" {
+				return readKey, d
+			}
+		}
+		return "", ""
+	}
+	if key, d := checkBlock(c04When(func() string { return "after setup" }), true, "setup-diff", "setup-read-mismatch"); d != "" {
+		return key, d, st
+	}
 	for vi, ops := range c.Views {
-		view := ts.NewView(state.CompletePermissions, bs, 4)
+		var scope state.Scope = state.CompletePermissions
+		var perms map[string]state.Permissions
+		if vi < len(c.Scopes) && c.Scopes[vi] != nil {
+			perms = map[string]state.Permissions{}
+			sk := state.Keys{}
+			for i, k := range c04Keys {
+				p := state.Permissions(c.Scopes[vi][string(rune('a'+i))])
+				perms[k] = p
+				if p != state.None {
+					sk[k] = p
+				}
+			}
+			scope = sk
+		}
+		view := ts.NewView(scope, bs, 4)
 		model := under.clone()
 		snaps := map[int]kv{0: model.clone()}
-		if key, d := check(view, model, fmt.Sprintf("view %d start", vi)); d != "" {
-			return key, d
+		commits := 0    // commits of this view so far
+		commitIdx := -1 // OpIndex() at the latest of them
+		// crossed: the view was rolled back to a checkpoint taken before its latest commit. What it shows
+		// from then on is the view's uncommitted changes at the checkpoint over a block state that has
+		// moved on; the statement does not define that, so the view's own reads are no longer judged and
+		// it is never committed again. The block-level state is still judged after each of its ops.
+		crossed := false
+		if key, d := check(view, perms, model, c04When(func() string { return fmt.Sprintf("view %d start", vi) })); d != "" {
+			return key, d, st
+		}
+		// commit: exactly the keys whose visible value differs from the underlying state
+		doCommit := func(when fmt.Stringer) (string, string) {
+			before := map[string]string{}
+			for k, v := range ts.ChangedKeys() {
+				before[k] = mstr(v)
+			}
+			wantDiff := 0
+			for _, k := range c04Keys {
+				if vs(model, k) != vs(under, k) {
+					wantDiff++
+				}
+			}
+			// (after an earlier commit of the same view its pending map may still hold the entries already published)
+			if got := view.PendingChanges(); commits == 0 && got != wantDiff {
+				return "pending-count", fmt.Sprintf("%s: PendingChanges()=%d but %d keys differ from the underlying state (model %s, under %s)", when, got, wantDiff, model, under)
+			}
+			view.Commit()
+			after := ts.ChangedKeys()
+			for k := range after {
+				if _, ok := c04Name[k]; !ok {
+					return "commit-foreign-key", fmt.Sprintf("%s: commit published unknown key %x", when, k)
+				}
+			}
+			for _, k := range c04Keys {
+				differs := vs(model, k) != vs(under, k)
+				cur, has := after[k]
+				prevS, had := before[k]
+				if differs {
+					if !has || mstr(cur) != vs(model, k) {
+						return "commit-missing", fmt.Sprintf("%s: key %s visible %s underlying %s but commit published %v", when, c04Name[k], vs(model, k), vs(under, k), pub(cur, has))
+					}
+					blk[k] = vs(model, k)
+				} else {
+					if has != had || (has && mstr(cur) != prevS) {
+						return "commit-extra", fmt.Sprintf("%s: key %s unchanged (%s) but commit changed block entry %v -> %v", when, c04Name[k], vs(model, k), pub2(prevS, had), pub(cur, has))
+					}
+				}
+			}
+			under = model.clone()
+			commits++
+			commitIdx = view.OpIndex()
+			// the whole published diff is the model's, and a fresh view must read the committed values
+			return checkBlock(c04When(func() string { return "fresh view after " + when.String() }), true, "commit-diff", "post-read-mismatch")
 		}
 		for si, o := range ops {
-			when := fmt.Sprintf("view %d after step %d %s", vi, si, o)
+			when := c04When(func() string { return fmt.Sprintf("view %d after step %d %s", vi, si, o) })
+			if commits > 0 && o.Kind != "commit" {
+				st.postCommitOps++
+			}
 			switch o.Kind {
-			case "put":
+			case "put", "del", "get":
 				k := c04Keys[o.Key]
-				if err := view.Insert(ctx, []byte(k), []byte(o.Val)); err != nil {
-					return "op-error", when + ": insert error " + err.Error()
+				idxBefore := view.OpIndex()
+				var (
+					err error
+					got []byte
+				)
+				bs.set(o.Fault)
+				switch o.Kind {
+				case "put":
+					err = view.Insert(ctx, []byte(k), []byte(o.Val))
+				case "del":
+					err = view.Remove(ctx, []byte(k))
+				default:
+					got, err = view.GetValue(ctx, []byte(k))
 				}
-				model[k] = o.Val
-			case "del":
-				k := c04Keys[o.Key]
-				if err := view.Remove(ctx, []byte(k)); err != nil {
-					return "op-error", when + ": remove error " + err.Error()
+				fired := bs.fired
+				bs.set(0)
+				st.faultsFired += fired
+				if crossed {
+					break
 				}
-				delete(model, k)
+				failed := false
+				if err != nil && !(o.Kind == "get" && errors.Is(err, database.ErrNotFound)) {
+					switch {
+					case fired > 0 && errors.Is(err, errC04Fault):
+						st.faultFailedOps++
+					case perms != nil && perms[k] != state.All && errors.Is(err, tstate.ErrInvalidKeyOrPermission):
+						st.permRefused++
+					default:
+						return "op-error", fmt.Sprintf("%s: unexpected error %v", when, err), st
+					}
+					failed = true
+				}
+				switch {
+				case failed:
+					// an operation that reported failure wrote nothing: same checkpoint index, and (below)
+					// the same visible values and later the same published diff as if it had not been issued
+					if view.OpIndex() != idxBefore {
+						return "failed-op-effect", fmt.Sprintf("%s: the op returned %q but OpIndex() moved %d -> %d", when, err, idxBefore, view.OpIndex()), st
+					}
+				case o.Kind == "put":
+					model[k] = o.Val
+				case o.Kind == "del":
+					delete(model, k)
+				default:
+					want, ok := model[k]
+					if ok != (err == nil) || (ok && string(got) != want) {
+						return "read-mismatch", fmt.Sprintf("%s: got (%q,%v) want %s", when, got, err, vs(model, k)), st
+					}
+				}
+			case "commit":
+				if crossed {
+					continue
+				}
+				if key, d := doCommit(c04When(func() string { return fmt.Sprintf("mid-view commit of view %d (step %d)", vi, si) })); d != "" {
+					return key, d, st
+				}
+				if si < len(ops)-1 {
+					st.midCommits++
+				}
 			case "rb":
 				if o.CP > view.OpIndex() {
 					continue
 				}
+				if o.CP < commitIdx {
+					if !crossed {
+						st.crossRollbacks++
+					}
+					crossed = true
+				}
 				snap, ok := snaps[o.CP]
-				if !ok {
-					return "harness", when + ": no snapshot for checkpoint"
+				if !ok && !crossed {
+					return "harness", when.String() + ": no snapshot for checkpoint", st
 				}
 				view.Rollback(ctx, o.CP)
-				model = snap.clone()
-				for cp := range snaps {
-					if cp > o.CP {
-						delete(snaps, cp)
+				if view.OpIndex() != o.CP {
+					return "rollback-opindex", fmt.Sprintf("%s: OpIndex()=%d after Rollback(%d)", when, view.OpIndex(), o.CP), st
+				}
+				if !crossed {
+					model = snap.clone()
+					for cp := range snaps {
+						if cp > o.CP {
+							delete(snaps, cp)
+						}
 					}
 				}
-				if view.OpIndex() != o.CP {
-					return "rollback-opindex", fmt.Sprintf("%s: OpIndex()=%d after Rollback(%d)", when, view.OpIndex(), o.CP)
+			}
+			if !crossed {
+				// the state visible when OpIndex() returns n is the snapshot for checkpoint n
+				if prev, ok := snaps[view.OpIndex()]; ok && o.Kind != "rb" {
+					// an op that did not advance the index must not have changed anything
+					if prev.String() != model.String() {
+						return "silent-op", fmt.Sprintf("%s: visible state changed (%s -> %s) without OpIndex advancing", when, prev, model), st
+					}
+				}
+				snaps[view.OpIndex()] = model.clone()
+				if key, d := check(view, perms, model, when); d != "" {
+					return key, d, st
 				}
 			}
-			// the state visible when OpIndex() returns n is the snapshot for checkpoint n
-			if prev, ok := snaps[view.OpIndex()]; ok && o.Kind != "rb" {
-				// an op that did not advance the index must not have changed anything
-				if prev.String() != model.String() {
-					return "silent-op", fmt.Sprintf("%s: visible state changed (%s -> %s) without OpIndex advancing", when, prev, model)
-				}
-			}
-			snaps[view.OpIndex()] = model.clone()
-			if key, d := check(view, model, when); d != "" {
-				return key, d
-			}
-		}
-		// commit: exactly the keys whose visible value differs from the underlying state
-		before := map[string]string{}
-		for k, v := range ts.ChangedKeys() {
-			before[k] = mstr(v)
-		}
-		wantDiff := 0
-		for _, k := range c04Keys {
-			if vs(model, k) != vs(under, k) {
-				wantDiff++
-			}
-		}
-		if got := view.PendingChanges(); got != wantDiff {
-			return "pending-count", fmt.Sprintf("view %d: PendingChanges()=%d but %d keys differ from the underlying state (model %s, under %s)", vi, got, wantDiff, model, under)
-		}
-		view.Commit()
-		after := ts.ChangedKeys()
-		for k := range after {
-			if _, ok := c04Name[k]; !ok {
-				return "commit-foreign-key", fmt.Sprintf("view %d: commit published unknown key %x", vi, k)
-			}
-		}
-		for _, k := range c04Keys {
-			differs := vs(model, k) != vs(under, k)
-			cur, has := after[k]
-			prevS, had := before[k]
-			if differs {
-				if !has || mstr(cur) != vs(model, k) {
-					return "commit-missing", fmt.Sprintf("view %d: key %s visible %s underlying %s but commit published %v", vi, c04Name[k], vs(model, k), vs(under, k), pub(cur, has))
-				}
-			} else {
-				if has != had || (has && mstr(cur) != prevS) {
-					return "commit-extra", fmt.Sprintf("view %d: key %s unchanged (%s) but commit changed block entry %v -> %v", vi, c04Name[k], vs(model, k), pub2(prevS, had), pub(cur, has))
+			// nothing a view does between its commits may reach the block-level state
+			if o.Kind != "commit" {
+				if key, d := checkBlock(when, commits > 0, "uncommitted-leak", "uncommitted-leak"); d != "" {
+					return key, d, st
 				}
 			}
 		}
-		under = model
-		// a fresh view must read the committed values
-		probe := ts.NewView(state.CompletePermissions, bs, 4)
-		if key, d := check(probe, under, fmt.Sprintf("fresh view after commit of view %d", vi)); d != "" {
-			return "post-" + key, d
+		if crossed || (vi < len(c.Discard) && c.Discard[vi]) {
+			st.discarded++
+			if key, d := checkBlock(c04When(func() string { return fmt.Sprintf("view %d dropped without commit", vi) }), true, "uncommitted-leak", "uncommitted-leak"); d != "" {
+				return key, d, st
+			}
+			continue
+		}
+		if key, d := doCommit(c04When(func() string { return fmt.Sprintf("view %d", vi) })); d != "" {
+			return key, d, st
 		}
 	}
-	return "", ""
+	return "", "", st
+}
+
+func c04PostCommitOrFault(ops []c04Op) bool {
+	for i, o := range ops {
+		if o.Fault > 0 || (o.Kind == "commit" && i < len(ops)-1) {
+			return true
+		}
+	}
+	return false
 }
 
 func vs(m kv, k string) string {
@@ -255,17 +474,27 @@ func pub2(s string, has bool) string {
 func c04Shape(c c04Case) string {
 	var b strings.Builder
 	fmt.Fprintf(&b, "%v|%v|", c.Base, c.Pending)
-	for _, v := range c.Views {
+	for i, v := range c.Views {
+		if i < len(c.Scopes) && c.Scopes[i] != nil {
+			fmt.Fprintf(&b, "%v", c.Scopes[i])
+		}
 		for _, o := range v {
 			b.WriteString(o.String())
+		}
+		if i < len(c.Discard) && c.Discard[i] {
+			b.WriteString("<drop>")
 		}
 		b.WriteByte(';')
 	}
 	return b.String()
 }
 
-// nontrivial: the case re-creates a deleted key or deletes a (re-)created key or rolls back.
-func c04Nontrivial(c c04Case) bool {
+// nontrivial: the case re-creates a deleted key or deletes a (re-)created key or rolls back, keeps
+// using a view after a Commit of it, or has an op that failed (injected parent fault / permission).
+func c04Nontrivial(c c04Case, st c04Stats) bool {
+	if st.faultFailedOps > 0 || st.permRefused > 0 || st.postCommitOps > 0 {
+		return true
+	}
 	for _, v := range c.Views {
 		seenDel := map[int]bool{}
 		seenPut := map[int]bool{}
@@ -293,14 +522,36 @@ func TestC04(t *testing.T) {
 	r := kit.Start(t, "C04", "exploration")
 	r.Rule("cases = (base values, block-level pending changes, 1..3 consecutive views each a sequence of put/del/rollback-to-earlier-op-index, then commit); every read of every key after every step, OpIndex after rollback, PendingChanges and the exact set published by Commit are compared with a plain map + snapshot model. A case is non-trivial when a view re-creates a deleted key, deletes a key it wrote, or rolls back; distinct = distinct (setup, op sequence).")
 	r.Assume("tstate is driven single-threaded per view as chain/transaction.go does", "values are single-chunk; chunk accounting is judged by C40/C12")
+	var tot c04Stats
+	flush := func() {
+		r.Count("ops_failed_by_injected_parent_fault", tot.faultFailedOps)
+		r.Count("parent_faults_fired", tot.faultsFired)
+		r.Count("ops_refused_by_restricted_scope", tot.permRefused)
+		r.Count("mid_view_commits", tot.midCommits)
+		r.Count("ops_on_view_after_its_commit", tot.postCommitOps)
+		r.Count("rollbacks_across_own_commit", tot.crossRollbacks)
+		r.Count("views_dropped_without_commit", tot.discarded)
+		r.Count("block_level_state_checks", tot.blockChecks)
+	}
 	judge := func(c c04Case) {
 		r.Eval()
-		var key, d string
-		r.Guard("tstate", c, func() { key, d = runC04(c) })
+		var (
+			key, d string
+			st     c04Stats
+		)
+		r.Guard("tstate", c, func() { key, d, st = runC04(c) })
 		if d != "" {
 			r.Violation("C04/"+key, c, "%s  [case %s]", d, c04Shape(c))
 		}
-		if c04Nontrivial(c) {
+		tot.faultFailedOps += st.faultFailedOps
+		tot.faultsFired += st.faultsFired
+		tot.permRefused += st.permRefused
+		tot.midCommits += st.midCommits
+		tot.postCommitOps += st.postCommitOps
+		tot.crossRollbacks += st.crossRollbacks
+		tot.discarded += st.discarded
+		tot.blockChecks += st.blockChecks
+		if c04Nontrivial(c, st) {
 			r.Distinct(c04Shape(c))
 			r.Sample(c)
 		}
@@ -309,11 +560,13 @@ func TestC04(t *testing.T) {
 		var c c04Case
 		if err := jsonUnmarshal(rf.Witness, &c); err == nil && len(c.Views) > 0 {
 			judge(c)
+			flush()
 			r.Finish(0)
 			return
 		}
 	}
 
+	t0 := time.Now(); lap := func(n string) { t.Logf("LAP %s %v", n, time.Since(t0)); t0 = time.Now() }
 	// (1) systematic small scope: one key, every setup, every op sequence up to length L
 	L := r.N(4, 6)
 	setups := []c04Case{}
@@ -355,6 +608,70 @@ func TestC04(t *testing.T) {
 	r.Count("exhaustive_single_key_cases", exhaustive)
 	r.Extra("exhaustive_single_key_max_len", L)
 
+	lap("1")
+	// (1b) systematic small scope, one key, every setup: histories that keep using the view after a
+	// Commit of it and/or contain ops during which the parent state fails its 1st / 2nd / every read
+	L2 := r.N(3, 5)
+	alphabet := []c04Op{
+		{Kind: "put", Val: "A"}, {Kind: "put", Val: "B"}, {Kind: "del"}, {Kind: "commit"},
+		{Kind: "put", Val: "B", Fault: 1}, {Kind: "put", Val: "B", Fault: 2},
+		{Kind: "del", Fault: 1}, {Kind: "del", Fault: 2}, {Kind: "get", Fault: 1},
+	}
+	exhaustive = 0
+	var rec2 func(prefix []c04Op, upper int)
+	rec2 = func(prefix []c04Op, upper int) {
+		// judged: histories where something follows a commit, or an op runs against a failing parent
+		if c04PostCommitOrFault(prefix) {
+			for _, s := range setups {
+				c := s
+				c.Views = [][]c04Op{append([]c04Op(nil), prefix...)}
+				judge(c)
+				exhaustive++
+			}
+		}
+		if len(prefix) == L2 {
+			return
+		}
+		for _, o := range alphabet {
+			rec2(append(prefix, o), upper+1)
+		}
+		for cp := 0; cp < upper; cp++ {
+			rec2(append(prefix, c04Op{Kind: "rb", CP: cp}), cp)
+		}
+	}
+	rec2(nil, 0)
+	r.Count("exhaustive_post_commit_and_fault_cases", exhaustive)
+	r.Extra("exhaustive_post_commit_and_fault_max_len", L2)
+
+	lap("1b")
+	// (1c) systematic small scope, one key present or absent in the parent, three consecutive views
+	// of 1..2 ops each over one TState (first committer into an empty block state vs later ones)
+	exhaustive = 0
+	var shortViews [][]c04Op
+	single := []c04Op{{Kind: "put", Val: "A"}, {Kind: "put", Val: "B"}, {Kind: "del"}}
+	for _, a := range single {
+		shortViews = append(shortViews, []c04Op{a})
+		for _, b := range single {
+			shortViews = append(shortViews, []c04Op{a, b})
+		}
+	}
+	for _, b := range []string{"", "A"} {
+		for _, v1 := range shortViews {
+			for _, v2 := range shortViews {
+				for _, v3 := range shortViews {
+					c := c04Case{Base: map[string]string{}, Pending: map[string]string{}, Views: [][]c04Op{v1, v2, v3}}
+					if b != "" {
+						c.Base["a"] = b
+					}
+					judge(c)
+					exhaustive++
+				}
+			}
+		}
+	}
+	r.Count("exhaustive_three_view_cases", exhaustive)
+
+	lap("1c")
 	// (2) random multi-key, multi-view histories
 	rng := r.Rand("random")
 	n := r.N(60000, 1500000)
@@ -394,7 +711,72 @@ func TestC04(t *testing.T) {
 		}
 		judge(c)
 	}
+	lap("2")
+	// (3) random multi-key, multi-view histories with mid-view commits, views dropped without commit,
+	// parent-state faults during ops and views with restricted per-key permissions
+	rng = r.Rand("random-ext")
+	n = r.N(40000, 1000000)
+	permChoices := []state.Permissions{state.All, state.All, state.Write, state.Allocate, state.Read, state.None}
+	for i := 0; i < n && r.Violations() < 20; i++ {
+		c := c04Case{Base: map[string]string{}, Pending: map[string]string{}}
+		withPending := rng.IntN(2) == 0 // else the first committing view commits into an empty block state
+		for j := range c04Keys {
+			name := string(rune('a' + j))
+			if rng.IntN(2) == 0 {
+				c.Base[name] = c04Vals[rng.IntN(len(c04Vals))]
+			}
+			if !withPending {
+				continue
+			}
+			switch rng.IntN(4) {
+			case 0:
+				c.Pending[name] = c04Vals[rng.IntN(len(c04Vals))]
+			case 1:
+				c.Pending[name] = "<deleted>"
+			}
+		}
+		nv := 1 + rng.IntN(3)
+		c.Scopes = make([]map[string]int, nv)
+		c.Discard = make([]bool, nv)
+		faulty := rng.IntN(2) == 0
+		for v := 0; v < nv; v++ {
+			if rng.IntN(5) == 0 {
+				c.Scopes[v] = map[string]int{}
+				for j := range c04Keys {
+					c.Scopes[v][string(rune('a'+j))] = int(permChoices[rng.IntN(len(permChoices))])
+				}
+			}
+			c.Discard[v] = rng.IntN(6) == 0
+			var ops []c04Op
+			ln := 2 + rng.IntN(12)
+			nkeys := 1 + rng.IntN(3)
+			for s := 0; s < ln; s++ {
+				var o c04Op
+				switch x := rng.IntN(20); {
+				case x < 7:
+					o = c04Op{Kind: "put", Key: rng.IntN(nkeys), Val: c04Vals[rng.IntN(len(c04Vals))]}
+				case x < 13:
+					o = c04Op{Kind: "del", Key: rng.IntN(nkeys)}
+				case x < 15:
+					o = c04Op{Kind: "get", Key: rng.IntN(nkeys)}
+				case x < 18:
+					o = c04Op{Kind: "rb", CP: rng.IntN(s + 1)}
+				default:
+					o = c04Op{Kind: "commit"}
+				}
+				if faulty && o.Kind != "rb" && o.Kind != "commit" && rng.IntN(3) == 0 {
+					o.Fault = []int{1, 1, 2, 2, c04FaultAll}[rng.IntN(5)]
+				}
+				ops = append(ops, o)
+			}
+			c.Views = append(c.Views, ops)
+		}
+		judge(c)
+	}
+	lap("3")
 	c04ConcurrentCommits(r)
+	lap("conc")
+	flush()
 	r.Finish(1000)
 }
 
